@@ -795,6 +795,10 @@ def _sample_regimes(ctx, n):
     dim = 2**n
     few = rng.choice([1, dim, rng.randint(1, dim), max(1, dim - 1)])
     many = dim + rng.choice([1, 2, rng.randint(3, 60)])
+    if ctx.cls == "classical" and ctx.index % 12 == 7 and n <= 6:
+        # one record of 100 000+ shots: counting may switch method with the number of shots
+        many = rng.choice([100000, 150000, 131073])
+        ctx.mon.note("samples:100000+")
     return few, many
 
 
